@@ -163,6 +163,23 @@ def buildAndSign {D} (t : TxCtx D) (ins : List InSpec) (sign : List D → List S
 def validate {D} (t : TxCtx D) (i : Nat) (s : InSpec) (u : Unlock) : Except Err Unit :=
   verifyInput (t.at i s.value) u.1 u.2 s.utxoScript
 
+def accepted (r : Except Err Unit) : Bool :=
+  match r with
+  | .ok _ => true
+  | .error _ => false
+
+/-- what the model predicts the implementation shows: was a transaction produced, and the
+    verdict of the script interpreter for each of its inputs -/
+def modelOutcome {D} (t : TxCtx D) (ins : List InSpec) (sign : List D → List SigC) :
+    Bool × List Bool :=
+  match buildAndSign t ins sign with
+  | .error _ => (false, [])
+  | .ok (_, us) =>
+    (true, (List.range us.length).map fun j =>
+      match ins[j]?, us[j]? with
+      | some s, some u => accepted (validate t j s u)
+      | _, _ => false)
+
 /-! ## Monitor -/
 
 /-- C27 as a predicate on what the implementation did: if every supplied signature verifies for
